@@ -1916,6 +1916,10 @@ impl Typer {
                         tast::Ty::TRef {
                             elem: Box::new(elem_ty),
                         }
+                    } else if name.as_str() == "array_set" && args_tast.len() == 3 {
+                        // The signature's array length is a wildcard; the result is the
+                        // array that was passed in, so it keeps that array's length.
+                        args_tast[0].get_ty()
                     } else {
                         self.fresh_ty_var()
                     };
@@ -2011,6 +2015,10 @@ impl Typer {
                         tast::Ty::TRef {
                             elem: Box::new(elem_ty),
                         }
+                    } else if name.as_str() == "array_set" && args_tast.len() == 3 {
+                        // The signature's array length is a wildcard; the result is the
+                        // array that was passed in, so it keeps that array's length.
+                        args_tast[0].get_ty()
                     } else {
                         self.fresh_ty_var()
                     };
